@@ -424,11 +424,19 @@ theorem kinv_reserve {k : K} (h : KInv k) (th : Tid) (t : Nat) : KInv (kReserve 
 theorem opsOk_add {k : K} {th : Tid} {ops : List Op} (h : opsOk k th ops = true) {key : Key}
     (hk : key ∈ addKeys ops) : (th, key) ∈ k.resv := by
   simp only [opsOk, Bool.and_eq_true, List.all_eq_true] at h
-  have := h.1 key hk
+  have := h.1.1 key hk
   simpa using this
 
 theorem opsOk_del {k : K} {th : Tid} {ops : List Op} (h : opsOk k th ops = true) {key : Key}
     (hk : key ∈ delKeys ops) : key.2 < k.nextRid ∧ ∀ r ∈ k.resv, r.2 ≠ key := by
+  simp only [opsOk, Bool.and_eq_true, List.all_eq_true] at h
+  have := h.1.2 key hk
+  simp only [Bool.and_eq_true, decide_eq_true_eq, Bool.not_eq_true', List.contains_eq_mem,
+    decide_eq_false_iff_not, List.mem_map, not_exists, not_and] at this
+  exact ⟨this.1, fun r hr => this.2 r hr⟩
+
+theorem opsOk_dv {k : K} {th : Tid} {ops : List Op} (h : opsOk k th ops = true) {key : Key}
+    (hk : key ∈ dvKeys ops) : key.2 < k.nextRid ∧ ∀ r ∈ k.resv, r.2 ≠ key := by
   simp only [opsOk, Bool.and_eq_true, List.all_eq_true] at h
   have := h.2 key hk
   simp only [Bool.and_eq_true, decide_eq_true_eq, Bool.not_eq_true', List.contains_eq_mem,
